@@ -21,8 +21,8 @@ import tempfile
 import time
 
 ROOT = os.path.dirname(os.path.dirname(os.path.abspath(__file__)))
-SPECS = os.path.join(ROOT, "specs")
-HARNESS = os.path.join(ROOT, "harness")
+SPECS = os.environ.get("VERIF_SPECS") or os.path.join(ROOT, "specs")
+HARNESS = os.environ.get("VERIF_HARNESS") or os.path.join(ROOT, "harness")
 REPO = os.environ.get("VERIF_REPO", "/repo")
 # evaluation of seeded / benign changes runs the checks against a scratch copy of the library (VERIF_REPO) and must not
 # overwrite the evidence of the unchanged tree: VERIF_OUT redirects evidence/ and replays/
@@ -332,6 +332,32 @@ def model_b(ctx, module, cfg, recs, *, env=None, timeout=1200, chunk=None, name=
     log("[modelB] %s: %d observations, %d violating, %.1fs" % (module, n, len(viols), time.time() - t))
     viols.sort(key=lambda x: x[0])
     return viols
+
+
+# -------------------------------------------------------------------- TLAPS
+def tlapm(ctx, module, deps, *, timeout=600):
+    """Check the proofs of specs/proofs/<module>.tla with the TLA+ proof system in a scratch directory (the modules it
+    EXTENDS, `deps`, are copied next to it from specs/). The theorems are laws of the specification for ALL integers -
+    the unbounded counterpart of what TLC checks on small grids. Anything but "All N obligations proved" is an
+    infrastructure error (exit 2): it says something about the specification, never about the code."""
+    d = tempfile.mkdtemp(prefix="tlaps-", dir=ctx.scratch)
+    shutil.copy(os.path.join(ctx.specdir, "proofs", module + ".tla"), d)
+    for m in deps:
+        shutil.copy(os.path.join(ctx.specdir, m + ".tla"), d)
+    t = time.time()
+    try:
+        p = subprocess.run(["tlapm", "--threads", str(min(8, NCPU)), module + ".tla"], cwd=d, capture_output=True, text=True, timeout=timeout)
+    except subprocess.TimeoutExpired:
+        raise Infra("tlapm %s: timeout after %ds" % (module, timeout))
+    out = p.stdout + p.stderr
+    m = re.search(r"All (\d+) obligations? proved", out)
+    if p.returncode != 0 or not m:
+        raise Infra("tlapm %s: %s" % (module, out[-600:]))
+    n = int(m.group(1))
+    log("[tlapm] %s: all %d obligations proved, %.1fs" % (module, n, time.time() - t))
+    ctx.coverage_extra.setdefault("tlaps", []).append(dict(module="proofs/" + module + ".tla", obligations_proved=n,
+                                                           theorems=re.findall(r"^THEOREM (\w+)", open(os.path.join(d, module + ".tla")).read(), re.M)))
+    return n
 
 
 # -------------------------------------------------------------------- Apalache
